@@ -658,6 +658,11 @@ impl<'a> Exec<'a> {
         if case.hasher.is_storm() {
             self.stats.fault("hash_storm");
         }
+        if let FKind::Quotient { q, r } = case.kind {
+            if case.hasher.mode == HashMode::Identity && q + r <= 7 && n == (1usize << (q + r)) {
+                self.stats.probe("complete_fingerprint_universe");
+            }
+        }
         if !self.derive_classes() || self.should_stop() {
             return;
         }
@@ -920,6 +925,25 @@ pub fn gen_kind(g: &mut Sm, which: u8, realistic: bool) -> FKind {
 /// Key universe. Under `Identity` the keys are crafted so that classes collide and neighbourhoods
 /// fill; otherwise they are arbitrary words (collisions then come from the hasher mode).
 pub fn gen_universe(g: &mut Sm, kind: &FKind, hasher: &SimHasher, n: usize) -> Vec<u64> {
+    // small widths under the Identity hasher: a third of the runs sweep the *complete* fingerprint
+    // universe, so that every phantom a slot-bookkeeping error could produce is looked at
+    if hasher.mode == HashMode::Identity && g.chance(1, 3) {
+        match *kind {
+            FKind::Quotient { q, r } if q + r <= 7 => {
+                return (0..(1u64 << (q + r))).collect();
+            }
+            FKind::Cuckoo { n_buckets, l_fp, .. } if l_fp <= 4 && n_buckets <= 8 => {
+                let mut u = vec![];
+                for fp in 0..((1u64 << l_fp) - 1) {
+                    for b in 0..n_buckets as u64 {
+                        u.push((fp << 32) | b);
+                    }
+                }
+                return u;
+            }
+            _ => {}
+        }
+    }
     let mut u: Vec<u64> = Vec::with_capacity(n);
     let mut tries = 0;
     while u.len() < n && tries < 20 * n {
